@@ -174,6 +174,36 @@ Theorem C34_ray_geom_dispatch : forall pos mat size pnt vec : list R,
 Proof. exact ray_geom_dispatch. Qed.
 Print Assumptions C34_ray_geom_dispatch.
 
+(* _ray_bvh's map from yielded BVH primitive indices to geoms (after /repo ae9ede3): the kernel over the
+   primitives equals the order-model over the geoms they denote, and the block of world w -- ngeom geoms
+   followed by nflexgeom flex primitives, at stride ngeom + nflexgeom -- denotes exactly the enabled geoms
+   for EVERY world and any number of flex primitives (flex primitives are skipped) *)
+Theorem C34_ray_bvh_prims : forall (gd : Z -> R * list R) (n f w : Z) (en : Z -> Z) (prims : list Z),
+  ray_bvh_kernel_prims gd n f w en prims = ray_bvh_kernel gd (prim_geoms n f w en prims).
+Proof. exact ray_bvh_kernel_prims_eq. Qed.
+Print Assumptions C34_ray_bvh_prims.
+
+Theorem C34_bvh_world_block_flex_stride : forall (n f w : Z) (en : Z -> Z), (0 <= n)%Z -> (0 <= f)%Z ->
+  prim_geoms n f w en (map (fun k => (w * (n + f) + k)%Z) (zrange (n + f))) = map en (zrange n).
+Proof. exact world_block_geoms. Qed.
+Print Assumptions C34_bvh_world_block_flex_stride.
+
+(* the triangle-test basis of ray_mesh / ray_hfield: _orthogonal_basis of a unit vector is an orthonormal
+   pair orthogonal to it (no exceptional direction), and -- what the code does since /repo 8617230 -- the
+   basis of the NORMALISED direction is orthogonal to the direction for every non-zero vec of any length *)
+Theorem C34_orthogonal_basis_unit : forall x y z : R, x * x + y * y + z * z = 1 ->
+  let b0 := fst (_orthogonal_basis [x; y; z]) in let b1 := snd (_orthogonal_basis [x; y; z]) in
+  dot3 b0 [x; y; z] = 0 /\ dot3 b1 [x; y; z] = 0 /\ dot3 b0 b1 = 0 /\ dot3 b0 b0 = 1 /\ dot3 b1 b1 = 1.
+Proof. exact orthogonal_basis_unit. Qed.
+Print Assumptions C34_orthogonal_basis_unit.
+
+Theorem C34_orthogonal_basis_normalized : forall x y z : R, 0 < x * x + y * y + z * z ->
+  let b0 := fst (_orthogonal_basis (@vnormalize R ScalarR [x; y; z])) in
+  let b1 := snd (_orthogonal_basis (@vnormalize R ScalarR [x; y; z])) in
+  dot3 b0 [x; y; z] = 0 /\ dot3 b1 [x; y; z] = 0 /\ dot3 b0 b1 = 0 /\ dot3 b0 b0 = 1 /\ dot3 b1 b1 = 1.
+Proof. exact orthogonal_basis_normalized. Qed.
+Print Assumptions C34_orthogonal_basis_normalized.
+
 (* bvh_equals_brute_partial.  Abstract BVH (binary tree, one geom per leaf, a box per node; `entry`
    = distance at which the ray enters a box, None = missed).  If the traversal skips a subtree only
    when its box is missed or entered no nearer than the current best (prune_sound), and every box is
